@@ -450,7 +450,10 @@ def run_cov(case, ratios):
             by.update(*[7.5 + i for i in range(k)])
             rows = [[s[r] for s in series] for r in range(pos, pos + size)]
             if it:
-                rcm.update_from_it(*[s[pos:pos + size] for s in series])
+                chunk = [s[pos:pos + size] for s in series]
+                if (pos + size) % 2:
+                    chunk = [iter(x) for x in chunk]        # a chunk may be any iterable, also a one-shot iterator
+                rcm.update_from_it(*chunk)
             else:
                 for row in rows:
                     rcm.update(*row)
